@@ -7,8 +7,10 @@ import (
 	"io"
 	"math/rand"
 	"os"
+	goruntime "runtime"
 	"sort"
 	"strconv"
+	"strings"
 	"sync"
 	"time"
 
@@ -158,6 +160,7 @@ type World struct {
 
 	traceMu      sync.Mutex
 	Stuck        bool // step budget exhausted
+	Deadlocked   bool // a reconcile blocked for ever: the case was abandoned
 	HorizonHit   bool
 	OnQuiescent  []func()
 	crashPending bool
@@ -444,7 +447,32 @@ func (w *World) trace(f string, a ...interface{}) {
 
 // waitTask blocks until the running task parks, finishes or its process crashes.
 func (w *World) waitTask(t *Task) {
-	ev := <-w.events
+	var ev taskEvt
+	for blockedFor := 0; ; {
+		got := false
+		select {
+		case ev = <-w.events:
+			got = true
+		case <-time.After(5 * time.Second):
+			// nothing else runs while a reconcile runs: if every goroutine executing furiko code is blocked on a
+			// channel, lock or wait group (and not parked by this harness), nothing can ever wake it
+			if reconcileBlocked() {
+				blockedFor++
+			} else {
+				blockedFor = 0
+			}
+		}
+		if got {
+			break
+		}
+		if blockedFor >= 3 {
+			w.Mon.fail("C20", "reconcile-blocked-forever", "the %s reconcile of %v (task %d) neither returned nor reached the API: all of its goroutines are blocked on channels / locks / wait groups, the worker is lost (goroutine states sampled three times over 15 s)", t.Ctl.Name, t.Item, t.ID)
+			w.trace("DEADLOCK in task %d", t.ID)
+			w.Deadlocked = true
+			w.current = nil
+			return
+		}
+	}
 	if ev.t != t {
 		panic(fmt.Sprintf("unexpected event from task %d while running %d", ev.t.ID, t.ID))
 	}
@@ -458,6 +486,37 @@ func (w *World) waitTask(t *Task) {
 	default:
 		w.parked[t.ID] = t
 	}
+}
+
+// reconcileBlocked inspects all goroutine stacks: true if at least one goroutine is executing furiko code outside
+// this harness's own parking places and every such goroutine is blocked (not running, runnable, sleeping or in a syscall).
+func reconcileBlocked() bool {
+	buf := make([]byte, 4<<20)
+	buf = buf[:goruntime.Stack(buf, true)]
+	n := 0
+	for _, g := range strings.Split(string(buf), "\n\ngoroutine ") {
+		if !strings.Contains(g, "github.com/furiko-io/furiko/pkg/") {
+			continue
+		}
+		if strings.Contains(g, "sim.(*World).gate") || strings.Contains(g, "sim.(*World).yield") || strings.Contains(g, "sim.(*API).begin") || strings.Contains(g, "sim.(*World).waitTask") {
+			continue // parked by the harness, or the scheduler itself
+		}
+		i, j := strings.Index(g, "["), strings.Index(g, "]")
+		if i < 0 || j < i {
+			return false
+		}
+		state := g[i+1 : j]
+		if k := strings.Index(state, ","); k >= 0 {
+			state = state[:k]
+		}
+		switch state {
+		case "chan send", "chan receive", "select", "semacquire", "sync.WaitGroup.Wait", "sync.Mutex.Lock", "sync.RWMutex.Lock", "sync.RWMutex.RLock", "sync.Cond.Wait", "chan send (nil chan)", "chan receive (nil chan)", "select (no cases)":
+			n++
+		default:
+			return false
+		}
+	}
+	return n > 0
 }
 
 // startTask pops one item of the controller's queue and runs the reconcile until its first API call.
@@ -798,6 +857,9 @@ func (w *World) Script(ops []UserOp) {
 // Run drives the world until a fixpoint (nothing enabled, no timer before the horizon), the horizon or the step budget.
 func (w *World) Run() {
 	for {
+		if w.Deadlocked {
+			return
+		}
 		if w.Steps >= w.Opt.StepBudget {
 			w.Stuck = true
 			w.trace("STEP BUDGET EXHAUSTED")
